@@ -62,6 +62,7 @@ type RootCtx struct {
 	mode          Mode
 	allocSites    int
 	pendingRefs   []*Term
+	top           *FnCtx
 }
 
 type InputBinding struct {
@@ -82,6 +83,8 @@ type Verifier struct {
 	bounds     map[*Term]*big.Int
 	typeTags   map[string]int
 	tagTypes   map[int]types.Type
+	usedTrusted map[string]bool
+	usedAuto    map[string]bool
 }
 
 type FnCtx struct {
